@@ -3,7 +3,6 @@
    orthogonal factors (trace cyclicity + orthogonality), bi-invariance of the quaternion dot product, and the
    trigonometric closed forms in the relative angle t. *)
 From Coq Require Import Reals List Lra Lia Psatz.
-From Interval Require Import Tactic.
 From AhrsLib Require Import Base Rot.
 Import ListNotations.
 Open Scope R_scope.
@@ -212,7 +211,12 @@ Proof.
   intros [H1 H2]. pose proof PI_RGT_0.
   assert (Hc : cos (t/2) <= cos (1/20000)).
   { destruct (Req_dec (t/2) (1/20000)) as [->|Hne]; [lra|]. left. apply cos_decreasing_1; lra. }
-  assert (cos (1/20000) <= 1 - 12/10000000000) by (interval with (i_prec 80)). lra.
+  assert (Hb : cos (1/20000) <= 1 - 12/10000000000).
+  { (* Taylor: cos a <= 1 - a^2/2 + a^4/24 *)
+    pose proof PI2_1 as P21. assert (B : - PI/2 <= 1/20000 <= PI/2) by lra.
+    pose proof (cos_bound (1/20000) 0 (proj1 B) (proj2 B)) as [_ Hub].
+    unfold cos_approx, cos_term in Hub. simpl in Hub. lra. }
+  lra.
 Qed.
 
 Lemma half_range t : 0 <= t <= PI -> 0 <= cos (t/2) /\ 0 <= sin (t/2).
